@@ -56,3 +56,45 @@ Proof.
 Qed.
 Theorem wrap_loop_empty H (r : H) : wrap_loop H [] r = None.
 Proof. reflexivity. Qed.
+
+(* ---- Basic auth: the decision ---- *)
+Section AuthFacts.
+Variable b64 : str -> option str.
+
+Theorem auth_allow_iff accts hdr u p :
+  basic_auth b64 accts hdr = Allow u p <->
+  parse_basic b64 hdr = Some (u, p) /\ (accts = [] \/ acct_lookup u accts = Some p).
+Proof.
+  unfold basic_auth. destruct (parse_basic b64 hdr) as [[u0 p0]|] eqn:E.
+  - destruct accts as [|a accts'].
+    + split; [intros H; inversion H; subst; auto|intros [H _]; inversion H; subst; auto].
+    + set (al := a :: accts'). destruct (acct_lookup u0 al) as [p'|] eqn:L.
+      * destruct (str_eqb_spec p' p0) as [Ep|NEp].
+        -- split.
+           ++ intros H. inversion H; subst. split; [reflexivity|right; exact L].
+           ++ intros [H _]. inversion H; subst. reflexivity.
+        -- split; [discriminate|]. intros [H [Hn|Hl]]; inversion H; subst; [discriminate|]. congruence.
+      * split; [discriminate|]. intros [H [Hn|Hl]]; inversion H; subst; [discriminate|]. congruence.
+  - split; [discriminate|]. intros [H _]. discriminate.
+Qed.
+Theorem auth_401_iff accts hdr : basic_auth b64 accts hdr = Deny401 <-> parse_basic b64 hdr = None.
+Proof.
+  unfold basic_auth. destruct (parse_basic b64 hdr) as [[u0 p0]|]; [|tauto].
+  split; [|discriminate]. destruct accts; [discriminate|].
+  destruct (acct_lookup u0 _); [destruct (str_eqb _ _)|]; discriminate.
+Qed.
+(* the three outcomes are exhaustive: everything else is 403 *)
+Theorem auth_403_iff accts hdr : basic_auth b64 accts hdr = Deny403 <->
+  exists u p, parse_basic b64 hdr = Some (u, p) /\ accts <> [] /\ acct_lookup u accts <> Some p.
+Proof.
+  unfold basic_auth. destruct (parse_basic b64 hdr) as [[u0 p0]|] eqn:E.
+  - destruct accts as [|a accts'].
+    + split; [discriminate|]. intros (u & p & _ & H & _). congruence.
+    + set (al := a :: accts'). destruct (acct_lookup u0 al) as [p'|] eqn:L.
+      * destruct (str_eqb_spec p' p0) as [Ep|NEp].
+        -- split; [discriminate|]. intros (u & p & H & _ & Hn). inversion H; subst. congruence.
+        -- split; auto. intros _. exists u0, p0. split; [reflexivity|]. split; [unfold al; discriminate|]. rewrite L. congruence.
+      * split; auto. intros _. exists u0, p0. split; [reflexivity|]. split; [unfold al; discriminate|]. rewrite L. discriminate.
+  - split; [discriminate|]. intros (u & p & H & _). discriminate.
+Qed.
+End AuthFacts.
